@@ -846,11 +846,40 @@ class RawWsHandler(NullHandler):
     def ws_opened(self, conn):
         self.opened = True
         conn.raw_handler = self
+        self.conn = conn
         for f in self.spec.get('frames', []):
             conn.send(f)
+        # a little script of its own (a rival upgrade handshake):
+        # ['send', d] / ['wait_frame'] / ['delay', ticks]
+        self.steps = list(self.spec.get('script', []))
+        self.waiting = False
+        self._next()
         if self.spec.get('close_after', True):
             self.c.k.after(self.spec.get('hold', 4) * TICK, conn.close,
                            'rawws.close')
+
+    def _next(self):
+        while self.steps and not self.closed:
+            st = self.steps[0]
+            if st[0] == 'send':
+                self.steps.pop(0)
+                if self.conn.state != 'open':
+                    return
+                self.conn.send(st[1])
+            elif st[0] == 'wait_frame':
+                if self.frames and not getattr(self, 'used', 0) >= \
+                        len(self.frames):
+                    self.used = getattr(self, 'used', 0) + 1
+                    self.steps.pop(0)
+                else:
+                    self.waiting = True
+                    return
+            elif st[0] == 'delay':
+                self.steps.pop(0)
+                self.c.k.after(st[1] * TICK, self._next, 'rawws.delay')
+                return
+            else:
+                self.steps.pop(0)
 
     def ws_refused(self, conn, status, body):
         self.status = status
@@ -858,6 +887,9 @@ class RawWsHandler(NullHandler):
 
     def ws_frame(self, conn, data, seq):
         self.frames.append((seq, data))
+        if getattr(self, 'waiting', False):
+            self.waiting = False
+            self._next()
 
     def ws_closed(self, conn):
         self.closed = True
